@@ -570,6 +570,78 @@ def gen_grouped_writer_cases(ctx, n: int) -> tuple[list[str], dict]:
     return cases, stats
 
 
+def run_flat_writer(cfg: dict | None, stmts: list):
+    from pyjelly.integrations.generic import serialize as ser
+    from pyjelly.options import LookupPreset, StreamParameters
+    from pyjelly.serialize.streams import SerializerOptions
+
+    frames = []
+    try:
+        opts = None
+        if cfg is not None:
+            preset = LookupPreset(max_names=cfg["maxn"], max_prefixes=cfg["maxp"], max_datatypes=cfg["maxd"])
+            params = StreamParameters(generalized_statements=cfg["gen"], rdf_star=cfg["star"], version=cfg["version"], delimited=cfg["delimited"],
+                                      namespace_declarations=cfg["nd"], stream_name=cfg["name"])
+            opts = SerializerOptions(flow=None, frame_size=cfg["frame_size"], logical_type=cfg["logical"], params=params, lookup_preset=preset)
+        it = ser.flat_stream_to_frames((x for x in stmts), opts)
+    except Exception as e:  # noqa: BLE001
+        return [], type(e).__name__
+    while True:
+        try:
+            frames.append(next(it))
+        except StopIteration:
+            return frames, None
+        except Exception as e:  # noqa: BLE001
+            return frames, type(e).__name__
+
+
+def gen_flat_writer_cases(ctx, n: int) -> tuple[list[str], dict]:
+    import gen as genmod
+    from pyjelly.integrations.generic import generic_sink as gs
+
+    r = ctx.rng
+    cases: list[str] = []
+    stats = {"streams": 0, "frames": 0, "exceptions": {}, "skipped": 0, "options_guessed": 0, "empty": 0}
+    oo = "[" + "; ".join(f'("{a}"%string, "{b}"%string)' for a, b in oneof_members()) + "]"
+    tries = 0
+    while len(cases) < n and tries < 6 * n:
+        tries += 1
+        quads = r.random() < 0.5
+        g = genmod.Gen(r, nprefix=r.randint(1, 4), nname=r.randint(2, 5), ndt=r.randint(1, 2))
+        raw = g.statements(r.choice([0, 1, 2, 5, 9]), 4 if quads else 3, prepeat=0.6)
+        stmts = [gs.Quad(*s) if quads else gs.Triple(*s) for s in raw]
+        if len(stmts) > 1 and r.random() < 0.1:
+            j = r.randrange(1, len(stmts))
+            stmts[j] = gs.Triple(*stmts[j][:3]) if quads else gs.Quad(*stmts[j], gs.DefaultGraph)
+        cfg = None
+        if r.random() < 0.6:
+            cfg = {"maxn": r.choice([16, 4000]), "maxp": r.choice([0, 4, 150]), "maxd": r.choice([2, 32]), "gen": True, "star": True, "version": r.choice([0, 1, 2]),
+                   "delimited": r.random() < 0.8, "nd": r.random() < 0.5, "name": "", "frame_size": r.choice([1, 3, 250]),
+                   "logical": r.choice([0, 1, 2, 3, 4, 13])}
+        frames, exc = run_flat_writer(cfg, stmts)
+        if exc is not None and exc not in EXNS:
+            stats["skipped"] += 1
+            continue
+        try:
+            sl = "[" + "; ".join(obj_lit(s) for s in stmts) + "]"
+        except ValueError:
+            stats["skipped"] += 1
+            continue
+        b = lambda x: "true" if x else "false"  # noqa: E731
+        c = cfg or {"maxn": 0, "maxp": 0, "maxd": 0, "gen": False, "star": False, "version": 0, "delimited": False, "nd": False, "name": "", "frame_size": 0, "logical": 0}
+        lhs = (f"tx_flat_writer {oo} {b(cfg is not None)} ({c['maxn']}) ({c['maxp']}) ({c['maxd']}) {b(c['gen'])} {b(c['star'])} ({c['version']}) "
+               f"{b(c['delimited'])} {b(c['nd'])} {nlist(c['name'])} ({c['frame_size']}) ({c['logical']}) {sl}")
+        rhs = "([" + "; ".join(pb_canon_lit(f) for f in frames) + "], " + ("None" if exc is None else f"Some {exc}") + ")"
+        cases.append(f"{lhs} = {rhs}")
+        stats["streams"] += 1
+        stats["frames"] += len(frames)
+        stats["options_guessed"] += cfg is None
+        stats["empty"] += not stmts
+        if exc:
+            stats["exceptions"][exc] = stats["exceptions"].get(exc, 0) + 1
+    return cases, stats
+
+
 # ------------------------------------------------------------------ the rdflib integration's term encoder
 class _NotATerm:
     """An object that is not an rdflib term (O_None of the specification).  Not Python's None: the writer's repeated-term list uses
